@@ -159,7 +159,7 @@ func class(t *abs.TD, proto bool) string {
 	return "len"
 }
 
-var fieldIdx = []int{1, 2, 3, 15, 16, 17, 300, 2047, 2048, 5000}
+var fieldIdx = []int{0, 1, 2, 3, 15, 16, 17, 63, 64, 127, 128, 300, 2047, 2048, 5000}
 
 // Type draws a supported type. keyOK restricts to comparable scalar / scalar-struct shapes.
 func Type(r *rand.Rand, o Opts, depth int, keyOK bool) *abs.TD {
